@@ -5,7 +5,7 @@ use super::{PropDef, COMMON_ASSUMPTIONS};
 use crate::adapt::*;
 use crate::engine::{boxed, cr, Info, Sub};
 use crate::recipes::*;
-use pairing_plus::{CurveAffine, CurveProjective};
+use pairing_plus::CurveProjective;
 use proptest::prelude::*;
 use refmodel::curve::Pt;
 use refmodel::fld::{Fld, SqrtFld};
@@ -96,20 +96,20 @@ fn embed_fq<F: Fld>(v: &refmodel::fld::Fq) -> F {
 }
 
 /// compare one projective register with the model
-fn cmp_proj<G: Grp>(what: &str, step: usize, c: &G::Proj, m: &Pt<G::F>) -> Result<(), String> {
+fn cmp_proj<G: Ops>(what: &str, step: usize, c: &G::Proj, m: &Pt<G::F>) -> Result<(), String> {
     let got = proj_m::<G>(c);
     if got != *m {
         return Err(format!("step {} ({}): crate register holds {} but the group law gives {}", step, what, pt_brief(&got), pt_brief(m)));
     }
     // is_zero must agree with Z = 0
-    let iz = cr("is_zero", || c.is_zero())?;
+    let iz = cr("is_zero", || G::op_is_zero(c))?;
     if iz != m.is_inf() {
         return Err(format!("step {} ({}): is_zero() = {} but the point is {}", step, what, iz, pt_brief(m)));
     }
     Ok(())
 }
 
-fn cmp_aff<G: Grp>(what: &str, step: usize, c: &G::Aff, m: &Pt<G::F>) -> Result<(), String> {
+fn cmp_aff<G: Ops>(what: &str, step: usize, c: &G::Aff, m: &Pt<G::F>) -> Result<(), String> {
     let got = aff_m::<G>(c);
     if got != *m {
         return Err(format!("step {} ({}): crate affine register holds {} but expected {}", step, what, pt_brief(&got), pt_brief(m)));
@@ -171,9 +171,9 @@ where
                 let mut t = cp[i];
                 cr(name, || {
                     if is_sub {
-                        t.sub_assign(&other)
+                        G::op_sub(&mut t, &other)
                     } else {
-                        t.add_assign(&other)
+                        G::op_add(&mut t, &other)
                     }
                 })?;
                 cp[i] = t;
@@ -206,9 +206,9 @@ where
                 let mut t = cp[i];
                 cr(name, || {
                     if is_sub {
-                        t.sub_assign_mixed(&other)
+                        G::op_sub_mixed(&mut t, &other)
                     } else {
-                        t.add_assign_mixed(&other)
+                        G::op_add_mixed(&mut t, &other)
                     }
                 })?;
                 cp[i] = t;
@@ -228,7 +228,7 @@ where
                     info.class("double:general");
                 }
                 let mut t = cp[i];
-                cr("double", || t.double())?;
+                cr("double", || G::op_double(&mut t))?;
                 cp[i] = t;
                 mp[i] = d;
                 cmp_proj::<G>("double", step, &cp[i], &mp[i])?;
@@ -236,7 +236,7 @@ where
             Op::Neg(i) => {
                 let i = *i as usize % np;
                 let mut t = cp[i];
-                cr("negate", || t.negate())?;
+                cr("negate", || G::op_neg(&mut t))?;
                 cp[i] = t;
                 mp[i] = curve.neg(&mp[i]);
                 cmp_proj::<G>("negate", step, &cp[i], &mp[i])?;
@@ -244,7 +244,7 @@ where
             Op::NegAff(j) => {
                 let j = *j as usize % na;
                 let mut t = ca[j];
-                cr("affine negate", || t.negate())?;
+                cr("affine negate", || G::op_neg_aff(&mut t))?;
                 ca[j] = t;
                 ma[j] = curve.neg(&ma[j]);
                 cmp_aff::<G>("affine negate", step, &ca[j], &ma[j])?;
@@ -252,7 +252,7 @@ where
             Op::ToAffine(i, j) => {
                 let (i, j) = (*i as usize % np, *j as usize % na);
                 let src = cp[i];
-                ca[j] = cr("into_affine", || src.into_affine())?;
+                ca[j] = cr("into_affine", || G::op_to_affine(&src))?;
                 ma[j] = mp[i].clone();
                 if mp[i].is_inf() {
                     info.class("into_affine:identity");
@@ -267,7 +267,7 @@ where
             Op::ToProj(i, j) => {
                 let (i, j) = (*i as usize % np, *j as usize % na);
                 let src = ca[j];
-                cp[i] = cr("into_projective", || src.into_projective())?;
+                cp[i] = cr("into_projective", || G::op_to_proj(&src))?;
                 mp[i] = ma[j].clone();
                 cmp_proj::<G>("into_projective", step, &cp[i], &mp[i])?;
                 if !mp[i].is_inf() && !proj_z_is_one::<G>(&cp[i]) {
@@ -277,7 +277,7 @@ where
             Op::RoundTrip(i) => {
                 let i = *i as usize % np;
                 let src = cp[i];
-                cp[i] = cr("into_affine.into_projective", || src.into_affine().into_projective())?;
+                cp[i] = cr("into_affine.into_projective", || G::op_to_proj(&G::op_to_affine(&src)))?;
                 cmp_proj::<G>("affine round trip", step, &cp[i], &mp[i])?;
             }
             Op::Rescale(i, l) => {
@@ -323,13 +323,13 @@ where
                         info.class("batch:>=2-unnormalized");
                     }
                 }
-                cr("batch_normalization", || G::Proj::batch_normalization(&mut v))?;
+                cr("batch_normalization", || G::op_batch(&mut v))?;
                 for (k, i) in idx.iter().enumerate() {
                     cmp_proj::<G>("batch_normalization", step, &v[k], &mp[*i])?;
                     if !mp[*i].is_inf() && !proj_z_is_one::<G>(&v[k]) {
                         return Err(format!("step {}: batch_normalization left entry {} with Z != 1", step, k));
                     }
-                    let norm = cr("is_normalized", || v[k].is_normalized())?;
+                    let norm = cr("is_normalized", || G::op_is_normalized(&v[k]))?;
                     if !norm {
                         return Err(format!("step {}: entry {} not is_normalized() after batch_normalization", step, k));
                     }
@@ -339,8 +339,8 @@ where
             Op::Eq(i, j) => {
                 let (i, j) = (*i as usize % np, *j as usize % np);
                 let (a, b) = (cp[i], cp[j]);
-                let eq = cr("==", || a == b)?;
-                let ne = cr("!=", || a != b)?;
+                let eq = cr("==", || G::op_eq(&a, &b))?;
+                let ne = cr("!=", || G::op_ne(&a, &b))?;
                 let want = mp[i] == mp[j];
                 if want && !mp[i].is_inf() {
                     let (_, _, z1) = a.as_tuple();
@@ -373,7 +373,7 @@ where
             Op::EqAff(i, j) => {
                 let (i, j) = (*i as usize % na, *j as usize % na);
                 let (a, b) = (ca[i], ca[j]);
-                let eq = cr("affine ==", || a == b)?;
+                let eq = cr("affine ==", || G::op_aff_eq(&a, &b))?;
                 if eq != (ma[i] == ma[j]) {
                     return Err(format!("step {}: affine == says {} for {} and {}", step, eq, pt_brief(&ma[i]), pt_brief(&ma[j])));
                 }
@@ -381,19 +381,19 @@ where
             Op::IsZero(i) => {
                 let i = *i as usize % np;
                 let t = cp[i];
-                let zc = cr("is_zero", || t.is_zero())?;
+                let zc = cr("is_zero", || G::op_is_zero(&t))?;
                 if zc != mp[i].is_inf() {
                     return Err(format!("step {}: is_zero() = {} for {}", step, zc, pt_brief(&mp[i])));
                 }
-                let ta = t.into_affine();
-                if ta.is_zero() != mp[i].is_inf() {
+                let ta = G::op_to_affine(&t);
+                if G::op_aff_is_zero(&ta) != mp[i].is_inf() {
                     return Err(format!("step {}: affine is_zero() wrong for {}", step, pt_brief(&mp[i])));
                 }
             }
             Op::IsNormalized(i) => {
                 let i = *i as usize % np;
                 let t = cp[i];
-                let n = cr("is_normalized", || t.is_normalized())?;
+                let n = cr("is_normalized", || G::op_is_normalized(&t))?;
                 let want = mp[i].is_inf() || proj_z_is_one::<G>(&t);
                 if n != want {
                     return Err(format!("step {}: is_normalized() = {} but Z in {{0,1}} is {}", step, n, want));
@@ -434,8 +434,8 @@ pub fn def() -> PropDef {
         rule: "programs of 0..32 group operations over 6 projective + 3 affine registers per group, initial points from every class (identity incl. junk representatives, small multiples of the generator, subgroup, full-curve, each small prime order dividing the cofactor, order l*r, negated, same-y (beta x, y)) in generated Jacobian representatives; crate and affine chord-and-tangent model stepped in lock-step and compared after every step. Non-trivial = the program executes at least one exceptional-branch operation as judged by the model (identity operand, P=Q, P=Q in different representatives, P=-Q, same-y/different-x, order-3 doubling, batch with identity / mixed normalized entries, equality of equal points in different representatives); distinct = distinct programs",
         needs_pairing: false,
         subs: vec![
-            Box::new(Sub { name: "g1-programs", rule: "G1 register-machine programs vs model", quick: 3000, thorough: 150_000, strategy: || boxed(strat_g1()), check }),
-            Box::new(Sub { name: "g2-programs", rule: "G2 register-machine programs vs model", quick: 3000, thorough: 150_000, strategy: || boxed(strat_g2()), check }),
+            Box::new(Sub { name: "g1-programs", rule: "G1 register-machine programs vs model", quick: 12_000, thorough: 150_000, strategy: || boxed(strat_g1()), check }),
+            Box::new(Sub { name: "g2-programs", rule: "G2 register-machine programs vs model", quick: 12_000, thorough: 150_000, strategy: || boxed(strat_g2()), check }),
         ],
         assumptions: COMMON_ASSUMPTIONS.to_vec(),
     }
